@@ -14,6 +14,7 @@ def prove(ctx):
 
 def correspond(ctx):
     _sched.run(ctx, PROP, GEN, RULE, 1500, 25000)
+    _sched.restart_part(ctx, PROP, ctx.scale(300, 3000))
 
 
 def search(ctx):
